@@ -166,7 +166,7 @@ func persistCase(order []string, kinds []string, storeKind, dir string) ([][]byt
 				emit(map[string]any{"e": "errh", "p": cur.p, "ok": ok})
 			}))
 		case "timeout":
-			opts = append(opts, eb.WithPersistenceTimeout(15*time.Millisecond))
+			opts = append(opts, eb.WithPersistenceTimeout(150*time.Millisecond))
 		case "obs":
 			opts = append(opts, eb.WithObservability(&pObs{emit: emit}))
 		case "substore":
@@ -296,8 +296,8 @@ func persistRuns(r *core.Run, name string, nRandom int, obsOnly bool) {
 			kinds[0] = []string{"unenc", "apperr"}[rnd.IntN(2)] // failure on the first publish of a fresh bus
 		}
 		sk := "memory"
-		if i%4 == 1 {
-			sk = "sqlite-file"
+		if i%4 == 1 && !has["timeout"] { // a persistence timeout is only combined with the memory store: on a loaded machine a
+			sk = "sqlite-file" // healthy SQLite append could exceed it, which would be the harness' fault, not ebu's
 		}
 		label := fmt.Sprintf("%s opts=%s kinds=%s", sk, strings.Join(order, ","), strings.Join(kinds, ","))
 		type res struct {
